@@ -39,6 +39,7 @@ type Inst struct {
 // It is read off the SSA of the current source on every run; a mismatch is confirmed by the native probe test Probe
 // (a Go test of package ProbePkg, injected by overlay) before it is reported.
 type WiringFact struct {
+	Kind       string // "" = concrete type of an interface argument; "calls" = Fn calls Callee; "nocall" = Fn never calls Callee
 	Fn, Callee string
 	Arg        int
 	Want       string
@@ -332,6 +333,21 @@ func (e *Env) RunProperty(id string) int {
 	// ---- wiring facts (assumptions read off the SSA of the current source)
 	wiringBad := []WiringFact{}
 	for _, wf := range spec.Wiring {
+		if wf.Kind == "calls" || wf.Kind == "nocall" {
+			cs, err := P.StaticCallees(wf.Fn)
+			if err != nil {
+				problems = append(problems, fmt.Sprintf("wiring fact not established: %v", err))
+				continue
+			}
+			holds := (cs[wf.Callee] > 0) == (wf.Kind == "calls")
+			if holds {
+				fmt.Printf("[%s] wiring: %s %s %s\n", id, wf.Fn, map[string]string{"calls": "calls", "nocall": "never calls"}[wf.Kind], wf.Callee)
+			} else {
+				fmt.Printf("[%s] wiring: %s: expected %q of %s (%d call sites found)\n", id, wf.Fn, wf.Kind, wf.Callee, cs[wf.Callee])
+				wiringBad = append(wiringBad, wf)
+			}
+			continue
+		}
 		sites, err := P.CallArgTypes(wf.Fn, wf.Callee, wf.Arg)
 		if err != nil || len(sites) == 0 {
 			problems = append(problems, fmt.Sprintf("wiring fact not established: no call of %s found in %s (%v)", wf.Callee, wf.Fn, err))
@@ -503,6 +519,10 @@ func (e *Env) RunProperty(id string) int {
 		f := filepath.Join(outDir, fmt.Sprintf("wiring-%d.json", i+1))
 		b, _ := json.MarshalIndent(map[string]interface{}{"property": id, "kind": "wiring", "fact": wf}, "", " ")
 		os.WriteFile(f, b, 0o644)
+		if wf.ProbeTest == "" {
+			problems = append(problems, fmt.Sprintf("an assumption the claim rests on no longer holds in the current source (%s); no native probe exists for it, so nothing is reported as held", wf.Why))
+			continue
+		}
 		out, failed, err := e.runProbe(wf)
 		switch {
 		case err != nil:
@@ -717,7 +737,12 @@ func (e *Env) ReplayFile(path string) int {
 func wiringNotes(spec *PropSpec) []string {
 	var out []string
 	for _, wf := range spec.Wiring {
-		out = append(out, fmt.Sprintf("wiring fact read off the SSA of the current source on every run (mismatch confirmed by native probe %s): in %s every call of %s passes %s as argument %d - %s", wf.ProbeTest, wf.Fn, wf.Callee, wf.Want, wf.Arg, wf.Why))
+		switch wf.Kind {
+		case "calls", "nocall":
+			out = append(out, fmt.Sprintf("wiring fact read off the SSA of the current source on every run: %s %s %s - %s", wf.Fn, map[string]string{"calls": "calls", "nocall": "never calls"}[wf.Kind], wf.Callee, wf.Why))
+		default:
+			out = append(out, fmt.Sprintf("wiring fact read off the SSA of the current source on every run (mismatch confirmed by native probe %s): in %s every call of %s passes %s as argument %d - %s", wf.ProbeTest, wf.Fn, wf.Callee, wf.Want, wf.Arg, wf.Why))
+		}
 	}
 	return out
 }
